@@ -92,10 +92,10 @@ def catalogue():
     # ... an evaluation in which every realization fails, tolerated by the threshold, with a non-linear constraint: what is
     # reported for the constraint then must not depend on what was computed before (neighbours: the same without failure)
     for k in range(3):
-        c = _copy(base); c["nonlinear_constraints"] = {"lower_bounds": [-INF], "upper_bounds": [1.5]}
+        c = _copy(base); c["nonlinear_constraints"] = {"lower_bounds": [-INF] * 3, "upper_bounds": [1.5, 2.5, 3.5]}
         c["realizations"] = {"weights": [1.0, 2.0, 1.0], "realization_min_success": 0}
         if k != 1:
-            c["_failall"] = 2
+            c["_failall"] = 1 if k == 0 else 2
         out.append(c)
     # ... linear constraints with a variable transform: the neighbours have the same number of rows but other coefficients, and
     # when things are re-used the TRANSFORM OBJECT is shared between them (same scales and offsets)
@@ -150,7 +150,11 @@ SHARED = {"pm": None, "plan": None, "step": None, "ctx": None, "sink": None, "co
 SEEDS = {1: 5, 2: 5 + 2 ** 32}          # gradient seeds used for the model's seeds 1 and 2 (differ only above bit 32)
 
 
+RUNS = {"count": 0}
+
+
 def run_once(cfg, seed, reuse, label, nest=False):
+    RUNS["count"] += 1
     original = cfg
     cfg = _copy(cfg)
     seedfree = cfg.pop("_seedfree", False)
@@ -158,6 +162,7 @@ def run_once(cfg, seed, reuse, label, nest=False):
     seedobj = cfg.pop("_seedobj", None)
     failall = cfg.pop("_failall", 0)
     hascon = "nonlinear_constraints" in cfg
+    ncon = len(cfg["nonlinear_constraints"]["upper_bounds"]) if hascon else 0
     if tf is not None and reuse:
         # the transform object of an earlier run with equal scales / offsets is re-used as well
         transforms = SHARED.setdefault("transforms", {}).setdefault(repr(tf), make_transforms(**tf))
@@ -169,6 +174,9 @@ def run_once(cfg, seed, reuse, label, nest=False):
 
     def evaluator(variables, context):
         state["n"] += 1
+        # the user's code leaves the heap in another state in every run (small arrays with run-specific contents, freed again)
+        junk = [np.full(k % 4 + 1, 1000.0 + RUNS["count"]) for k in range(64)]
+        del junk
         if nest and state["n"] == 1:
             # another optimization (same configuration, another seed, everything of its own) starts and completes inside this
             # evaluator call: two evaluators and their samplers are alive at the same time
@@ -189,13 +197,14 @@ def run_once(cfg, seed, reuse, label, nest=False):
         if failall == state["n"]:
             obj[:] = np.nan                 # every realization fails in this evaluation
         h.update(obj.tobytes())
-        con = None if not hascon else (x[:, :1] + x[:, 1:2] * x[:, 2:3] + 0.125 * context.realizations[:, None])
+        con = None if not hascon else (x[:, :1] + x[:, 1:2] * x[:, 2:3] + 0.125 * context.realizations[:, None]) * np.arange(1.0, ncon + 1.0)
         return EvaluatorResult(objectives=obj, constraints=con)
 
     def finished(event):
         for r in event.data["results"]:
             if isinstance(r, FunctionResults) and r.functions is not None:
                 h.update(r.functions.weighted_objective.tobytes())
+                h.update(b"-" if r.functions.constraints is None else np.asarray(r.functions.constraints).tobytes())
                 ci = r.constraint_info          # the reported constraint differences are results as well
                 for name in ("bound_lower", "bound_upper", "linear_lower", "linear_upper", "nonlinear_lower", "nonlinear_upper"):
                     arr = None if ci is None else getattr(ci, name)
@@ -238,7 +247,10 @@ def run_once(cfg, seed, reuse, label, nest=False):
             # plug-in on the manager of ITS OWN context - nobody else's business
             ctx = OptimizerContext(evaluator=evaluator)
             if label in ("other", "inner"):
-                ctx.plugin_manager.add_plugin("sampler", "rvneg-own", NegatingSamplerPlugin(), prioritize=True)
+                try:
+                    ctx.plugin_manager.add_plugin("sampler", "rvneg-own", NegatingSamplerPlugin(), prioritize=True)
+                except Exception:  # noqa: BLE001 - a manager of its own cannot know the name already: the runs will tell
+                    pass
         ctx.add_observer(EventType.FINISHED_EVALUATION, finished)
         plan = Plan(ctx)
         step = plan.add_step("optimizer")
